@@ -241,6 +241,10 @@ WILD = ["5", "-3.5", "1e999", "abc", "\"quoted text\"", "[1, 2]", "[]", "[[1], [
         "\"\u0394 line\\nbreak\"", "\"\u4e2d\\\"\u6587\"", "\"caf\u00e9\\t\""]
 
 
+# always tried where a path is declared: an embedded NUL, an over-long name, directories, a home shortcut, a lone backslash, a dangling relative climb
+PATH_WILD = ["\"a\x00b.csv\"", "\"" + "x" * 300 + ".csv\"", "\".\"", "\"/\"", "\"~\"", "\"\\\\\"", "\"../../../../../../../../nowhere/x.csv\"", "\"input.csv/\""]
+
+
 def confusion_cases(repo, tier="quick", seed=0):
     """every command x parameter x a value alphabet of every kind; whatever happens, only SyntaxError / MPilotError may escape"""
     import random
@@ -255,6 +259,8 @@ def confusion_cases(repo, tier="quick", seed=0):
             valid.pop("NewFieldName", None)
         for pname in list(valid) + ["Metadata"]:
             vals_all = WILD if tier == "thorough" else rnd.sample(WILD, 9)
+            if pname != "Metadata" and getattr(params[pname], "cls", None) == "PathParameter":
+                vals_all = list(vals_all) + PATH_WILD
             for text in vals_all:
                 vals = dict(valid)
                 vals[pname] = text
